@@ -1,4 +1,5 @@
 """C16 - header rewrite rules do exactly what their syntax says (module HeaderRules)."""
+import json
 import vlib
 
 
@@ -63,7 +64,69 @@ def run(ctx):
 
 
 def dispatch(ctx, binp):
-    pass
+    """--header / --connect-header / --response-header dispatch, through the real binary (command/run)."""
+    import socket, subprocess, time, os
+    import c19
+    recs, g, d, _ = ctx.gen("HeaderRules.tla", "GEN_HeaderRulesDispatch.cfg")
+    cases = {}
+    for r in recs:
+        if "dispatch" in r:
+            cases[vlib.digest(r)] = r
+    cases = list(cases.values())
+    fwd = ctx.build_cmd_forwarder()
+    marker = {"req": "X-B", "con": "Ab", "res": "Abc"}
+    # one process per (req, con, res) combination, all four message kinds against it
+    combos = sorted(set((c["dispatch"]["req"], c["dispatch"]["con"], c["dispatch"]["res"]) for c in cases))
+    for (rq, cn, rs) in combos:
+        origin, upstream = c19.Peer(), c19.Peer()
+        origin.start(); upstream.start()
+        addr, api = c19.free_port(), c19.free_port()
+        args = [fwd, "run", "--address", "127.0.0.1:%d" % addr, "--api-address", "127.0.0.1:%d" % api, "--proxy-localhost", "allow",
+                "--proxy", "http://127.0.0.1:%d" % upstream.port, "--log-level", "error"]
+        if rq:
+            args += ["--header", "X-B: v"]
+        if cn:
+            args += ["--connect-header", "Ab: v"]
+        if rs:
+            args += ["--response-header", "Abc: v"]
+        p = subprocess.Popen(args, stdout=subprocess.DEVNULL, stderr=subprocess.DEVNULL)
+        try:
+            for _ in range(100):
+                try:
+                    socket.create_connection(("127.0.0.1", addr), timeout=0.2).close()
+                    break
+                except OSError:
+                    time.sleep(0.05)
+            tgt = "127.0.0.1:%d" % origin.port
+            rget = c19.http_exchange(("127.0.0.1", addr), ("GET http://%s/d HTTP/1.1\r\nHost: %s\r\nConnection: close\r\n\r\n" % (tgt, tgt)).encode())
+            rcon = c19.http_exchange(("127.0.0.1", addr), ("CONNECT %s HTTP/1.1\r\nHost: %s\r\n\r\n" % (tgt, tgt)).encode())
+            seen_get = [h for h in upstream.seen if h.startswith("GET ")]
+            seen_con = [h for h in upstream.seen if h.startswith("CONNECT ")]
+            obs = {"request": seen_get[0] if seen_get else "", "connect": seen_con[0] if seen_con else "",
+                   "response": rget.split("\r\n\r\n")[0], "connect-response": rcon.split("\r\n\r\n")[0]}
+        finally:
+            p.terminate()
+            try:
+                p.wait(timeout=5)
+            except Exception:
+                p.kill()
+            origin.close(); upstream.close()
+        for c in cases:
+            dd = c["dispatch"]
+            if (dd["req"], dd["con"], dd["res"]) != (rq, cn, rs):
+                continue
+            ctx.evaluations += 1
+            ctx.nontrivial.add("dispatch:%s" % json.dumps(dd, sort_keys=True))
+            head = obs[dd["kind"]]
+            if not head:
+                ctx.violation("C16:dispatch:no-message:" + dd["kind"], {"case": c, "obs": obs})
+                continue
+            present = set(k for k, name in marker.items() if ("\r\n%s: v" % name).lower() in head.lower())
+            if present != set(c["markers"]):
+                ctx.violation("C16:dispatch:%s" % dd["kind"], {"case": c, "markers_seen": sorted(present), "head": head[:400]})
+            else:
+                ctx.traces_ok += 1
+    ctx.sample({"dispatch_case": cases[0] if cases else None})
 
 
 def replay(ctx, path):
